@@ -232,6 +232,32 @@ def run_case(ck, desc):
         if not ck.margin("tabulated alpha = lambda / c at nodes", e, 1e-13):
             ck.violation("tabulated-alpha=lambda/c", {"rel": e}, desc)
         ck.count("table_nodes_checked", int(ok.sum()))
+        # the FIRST and LAST rows against the harness's own derivative of the documented storage there
+        # (columns continued linearly beyond the table, as "the pressure derivative at the end row")
+        def ext(col):
+            def f_(x, col=col):
+                x = np.asarray(x, dtype=float)
+                y = np.interp(x, P, cols[col])
+                lo_s = (cols[col][1] - cols[col][0]) / (P[1] - P[0])
+                hi_s = (cols[col][-1] - cols[col][-2]) / (P[-1] - P[-2])
+                y = np.where(x < P[0], cols[col][0] + lo_s * (x - P[0]), y)
+                return np.where(x > P[-1], cols[col][-1] + hi_s * (x - P[-1]), y)
+            return f_
+        own_ext = {k_: ext(k_) for k_ in ("Bo", "Bg", "Bw", "Rs", "Rv", "mu_o", "mu_g", "mu_w")}
+        for row in (0, len(P) - 1):
+            so_r = cols["So"][row]
+            fS = lambda x, so_r=so_r: storage(np.asarray([x]), np.asarray([so_r]), phi, Sw, own_ext, dens)[0]  # noqa: E731
+            d1 = (fS(P[row] + 0.25) - fS(P[row] - 0.25)) / 0.5
+            d2 = (fS(P[row] + 0.125) - fS(P[row] - 0.125)) / 0.25
+            c_ref = (4 * d2 - d1) / 3
+            if np.isfinite(c_n[row]) and c_ref != 0 and (P[1] - P[0]) > 1.0 and (P[-1] - P[-2]) > 1.0:
+                e_end = abs(c_n[row] - c_ref) / (abs(c_ref) + 1e-9 * abs(fS(P[row])))
+                if not ck.margin("end rows: c = derivative of documented storage", e_end, 2e-3):
+                    ck.violation("equals-finite-difference-of-documented-storage", {"row": "first" if row == 0 else "last", "c_library": float(c_n[row]), "c_reference": float(c_ref), "rel": e_end}, desc)
+                lam_ref = float(lam_n[row])
+                if not ck.margin("end rows: tabulated alpha = lambda / c_reference", abs(tab_alpha[row] * c_ref / lam_ref - 1), 2e-3):
+                    ck.violation("tabulated-alpha=lambda/c", {"row": "first" if row == 0 else "last", "alpha": float(tab_alpha[row]), "lambda/c_reference": lam_ref / c_ref}, desc)
+                ck.count("table_end_rows_checked")
     ck.count("table_cases")
     return bool(len(pe) >= 4 and (const_tab or np.all(want != 0))), {"rows": len(P), "c": got[:2], "want": want[:2], "lambda": lam[:2]}
 
